@@ -39,8 +39,9 @@ def scenario(draw, tier="quick", fault=False):
     ep = draw(st.integers(0, 3)) > 0
     n_events = draw(st.integers(1, min(3, nm)))
     grid = draw(st.booleans())  # identical publish times across markets
-    lk = draw(st.sampled_from([{}, {}, {"inplay": True}, {"inplay": False}, {"seconds_to_start": 10}, {"max_inplay_seconds": 5},
-                               {"inplay": True, "max_inplay_seconds": 3}, {"seconds_to_start": 20, "max_inplay_seconds": 10}]))
+    LKS = [{}, {}, {"inplay": True}, {"inplay": False}, {"seconds_to_start": 10}, {"max_inplay_seconds": 5},
+           {"inplay": True, "max_inplay_seconds": 3}, {"seconds_to_start": 20, "max_inplay_seconds": 10}]
+    lk = draw(st.sampled_from(LKS))
     markets, scripts = [], []
     for mi in range(nm):
         spec = world.default_market(mi, 2, event=draw(st.integers(0, n_events - 1)))
@@ -65,9 +66,15 @@ def scenario(draw, tier="quick", fault=False):
           "clients": [{"min_bet_validation": False}], "config": {}}
     if ep and n_events > 1 and draw(st.booleans()):
         sc["event_groups"] = {markets[0]["event_id"]: "G", markets[-1]["event_id"]: "G"}
+    if draw(st.integers(0, 2)) == 0:
+        # strategies with DIFFERENT listener filters on the same files (each gets its own stream of the market);
+        # either may be registered first
+        sc["strategies"][1]["listener_kwargs"] = draw(st.sampled_from(LKS + [{"inplay": True, "max_inplay_seconds": 20}]))
+        if draw(st.booleans()):
+            sc["strategies"].reverse()
     if fault:
         sc["config"] = {"raise_errors": True}
-        sc["strategies"][1]["fault"] = {"cb": draw(st.sampled_from(["check_market_book", "process_market_book", "process_orders", "process_new_market"])),
+        next(s_ for s_ in sc["strategies"] if s_["name"] == "OBS")["fault"] = {"cb": draw(st.sampled_from(["check_market_book", "process_market_book", "process_orders", "process_new_market"])),
                                         "n": draw(st.integers(0, 6)), "exc": "plain"}
     return sc
 
@@ -123,9 +130,12 @@ def check(sc):
         raise crash_violation(lb.error, sc, "run-aborted")
     if not lb.datetime_restored:
         raise Violation("real-clock-not-restored", ("normal-exit",), "datetime.datetime is not the original class after run()", sc)
-    lk = sc.get("listener_kwargs") or {}
     nontrivial = False
     for name in ("A", "OBS"):
+        sspec = next(s for s in sc["strategies"] if s["name"] == name)
+        lk = sspec.get("listener_kwargs", sc.get("listener_kwargs")) or {}
+        if "listener_kwargs" in sspec and sspec["listener_kwargs"] != (sc.get("listener_kwargs") or {}):
+            classes.add("strategies-with-different-filters")
         recs = [r for r in lb.log if r["strategy"] == name and r["cb"] in ("check_market_book", "process_closed_market")]
         for r in recs:
             if r["now"] != r["pt"]:
